@@ -2,6 +2,9 @@
 # Build the Coq development (full .vo build), extract the runner, compile the OCaml driver.
 set -e
 cd "$(dirname "$0")/coq"
+./Extract/gen_run.sh
+{ echo "-Q . GB"; find . -name "*.v" | sed "s#^\./##" | LC_ALL=C sort; } > _CoqProject.new
+if ! cmp -s _CoqProject.new _CoqProject; then mv _CoqProject.new _CoqProject; else rm _CoqProject.new; fi
 coq_makefile -f _CoqProject -o Makefile.coq > /dev/null
 timeout 3000 make -f Makefile.coq -j16 2>&1 | grep -v "^COQDEP\|^COQC\|conda" || true
 # make's exit status (pipe hides it): re-run quietly
